@@ -113,6 +113,8 @@ func (conn *Conn) recv() {
 			req := new(SrvReq)
 			select {
 			case req.Rc = <-conn.rchan:
+				/* nothing is packed yet: the post-handlers must not see the previous reply's type */
+				req.Rc.Type = 0
 				/* a buffer from before Tversion lowered msize must not carry longer replies */
 				if len(req.Rc.Buf) > int(conn.Msize) {
 					req.Rc.Buf = req.Rc.Buf[0:conn.Msize]
